@@ -7,7 +7,7 @@ import math
 import re
 from fractions import Fraction
 
-MAXV = 12  # a1..a12 / b1..b12 are bound
+MAXV = 16  # a1..a12 / b1..b12 are bound
 
 
 class RefError(Exception):
